@@ -11,6 +11,14 @@ pub fn tftp_string() -> BoxedStrategy<String> {
         3 => proptest::collection::vec(any::<char>().prop_filter("no NUL", |c| *c != '\0'), 1..24)
             .prop_map(|v| v.into_iter().collect::<String>()),
         1 => "[a-z]{500,700}",
+        // long strings with a multi-byte character at / around typical cap lengths (64, 128, 256, 512 bytes)
+        2 => (prop_oneof![
+                1 => 0usize..=520,
+                1 => prop::sample::select(vec![60usize, 61, 62, 63, 64, 124, 125, 126, 127, 128, 252, 253, 254, 255, 256, 508, 509, 510, 511, 512]),
+            ],
+            prop::sample::select(vec!['\u{e9}', '\u{20ac}', '\u{1f600}', '\u{212a}', '\u{7f}', '\u{80}']),
+            "[a-z\u{e9}\u{20ac}]{0,40}")
+            .prop_map(|(pad, ch, tail)| format!("{}{}{}", "a".repeat(pad), ch, tail)),
         1 => Just("octet".to_string()),
         1 => Just("netascii".to_string()),
     ]
